@@ -21,12 +21,14 @@ CLASS_FIELDS = {
     # read-only view of an HRG: label tables and the flat sequence of its rules (see contracts/utils.py:
     # HRG.all_rules / HRG.nonterminals are used through *assumed* contracts over this view)
     "HRGView": {"_node_labels": "dict[str,NodeLabel]", "_edge_labels": "dict[str,EdgeLabel]", "_rule_seq": "seq[RuleV]"},
+    # an HRG as far as its label tables go; the rule table (dict of lists of mutable rules) is opaque
+    "HRGLabels": {"_node_labels": "dict[str,NodeLabel]", "_edge_labels": "dict[str,EdgeLabel]", "_rules": "opaque"},
     "FiniteDomain": {"values": "list[PyVal]", "_value_index": "dict[PyVal,int]"},
     "RangeDomain": {"_size": "int"},
 }
 
 # concrete class used for method resolution when the static type is one of the pseudo classes above
-RESOLVE_AS = {"LabelTable": "Graph", "Interp": "FactorGraph", "HRGView": "HRG"}
+RESOLVE_AS = {"LabelTable": "Graph", "Interp": "FactorGraph", "HRGView": "HRG", "HRGLabels": "HRG"}
 
 
 def check_schema(program) -> list:
